@@ -14,9 +14,12 @@ Mirrors, function by function and "as the code is":
   * agent/consul/state/peering.go     `exportedServicesForPeerTxn`                           → `exportedFor`
 
 The mini-catalog is the three memdb tables nodes / services / checks with the peer name in every key
-(`catalog_schema.go`: `indexWithPeerName`); index keys are lower-cased by the schema, which the model
-reproduces through `lc`. Go maps whose iteration order can matter are association lists processed in
-list order; the harness hands the snapshot over in the node order the implementation actually used.
+(`catalog_schema.go`: `indexWithPeerName`). The schema lower-cases node names, service ids, check ids
+and service names in index keys while the importer's Go maps use the exact spelling; the model assumes
+CASE-NORMAL (lower-case) names, for which both coincide — the engine rejects anything else, and the
+harness explores names that differ only in case with its monitors only (see the report: this is where
+the implementation breaks). Go maps whose iteration order can matter are association lists processed
+in list order; the harness hands the snapshot over in the node order the implementation actually used.
 
 Not modelled (see bin/props/C17.json): Raft indexes (Create/ModifyIndex) and the index table, every
 field of Node / NodeService / HealthCheck beyond one content field each (address, port, status),
@@ -26,9 +29,6 @@ Core-only Lean; no Mathlib.
 -/
 import CV.Proto
 namespace CV.Peer
-
-/-- `strings.ToLower` on the (ASCII) names the generators use. Never unfolded in proofs. -/
-def lc (s : String) : String := s.map Char.toLower
 
 /-! ### the three tables -/
 
@@ -66,17 +66,17 @@ inductive Err
   | missingNode | missingService | nodeReserved | checkNodeMismatch
 deriving DecidableEq, Repr
 
-/-! ### index keys (peer, lower-cased names) -/
+/-! ### index keys (peer name first, then the names) -/
 
-def nodeAt (p n : String) (x : Node) : Bool := decide (x.peer = p ∧ lc x.name = lc n)
-def svcAt (p n i : String) (x : Svc) : Bool := decide (x.peer = p ∧ lc x.node = lc n ∧ lc x.sid = lc i)
-def svcOn (p n : String) (x : Svc) : Bool := decide (x.peer = p ∧ lc x.node = lc n)
-def chkAt (p n k : String) (x : Chk) : Bool := decide (x.peer = p ∧ lc x.node = lc n ∧ lc x.cid = lc k)
-def chkOn (p n : String) (x : Chk) : Bool := decide (x.peer = p ∧ lc x.node = lc n)
+def nodeAt (p n : String) (x : Node) : Bool := decide (x.peer = p ∧ x.name = n)
+def svcAt (p n i : String) (x : Svc) : Bool := decide (x.peer = p ∧ x.node = n ∧ x.sid = i)
+def svcOn (p n : String) (x : Svc) : Bool := decide (x.peer = p ∧ x.node = n)
+def chkAt (p n k : String) (x : Chk) : Bool := decide (x.peer = p ∧ x.node = n ∧ x.cid = k)
+def chkOn (p n : String) (x : Chk) : Bool := decide (x.peer = p ∧ x.node = n)
 /-- index `node_service`: checks of one service instance -/
-def chkOfSvc (p n i : String) (x : Chk) : Bool := decide (x.peer = p ∧ lc x.node = lc n ∧ lc x.sid = lc i)
+def chkOfSvc (p n i : String) (x : Chk) : Bool := decide (x.peer = p ∧ x.node = n ∧ x.sid = i)
 /-- index `node_service` with the empty service id: node-level checks -/
-def chkOfNode (p n : String) (x : Chk) : Bool := decide (x.peer = p ∧ lc x.node = lc n ∧ x.sid = "")
+def chkOfNode (p n : String) (x : Chk) : Bool := decide (x.peer = p ∧ x.node = n ∧ x.sid = "")
 
 /-! ### deletions (`deleteCheckTxn`, `deleteServiceTxn`, `deleteNodeTxn`) -/
 
@@ -134,14 +134,14 @@ def serfHealthy (c : Cat) (p n : String) : Bool :=
 /-- `ensureNoNodeWithSimilarNameTxn` returns an error -/
 def nameClash (c : Cat) (nd : Node) (allowNoId : Bool) : Bool :=
   c.nodes.any fun e =>
-    decide (e.peer = nd.peer ∧ lc e.name = lc nd.name ∧ nd.id ≠ e.id)
+    decide (e.peer = nd.peer ∧ e.name = nd.name ∧ nd.id ≠ e.id)
       && (decide (e.id ≠ "") || !allowNoId) && serfHealthy c e.peer e.name
 
 def putNode (c : Cat) (nd : Node) : Cat :=
   { c with nodes := c.nodes.filter (fun x => !nodeAt nd.peer nd.name x) ++ [nd] }
 
 /-- `Node.IsSame` (peer and partition agree by construction of the lookups) -/
-def sameNode (a b : Node) : Bool := decide (a.id = b.id ∧ lc a.name = lc b.name ∧ a.addr = b.addr)
+def sameNode (a b : Node) : Bool := decide (a.id = b.id ∧ a.name = b.name ∧ a.addr = b.addr)
 
 /-- tail of `ensureNodeTxn`: compare with the row found (by UUID, else by name) and insert -/
 def finishNode (c : Cat) (nd : Node) (found : Option Node) : Cat :=
@@ -155,7 +155,7 @@ def ensureNode (c : Cat) (nd : Node) : Except Err Cat :=
   else
     match c.nodes.find? (fun x => decide (x.peer = nd.peer ∧ x.id = nd.id)) with
     | some n =>
-      if lc n.name = lc nd.name then .ok (finishNode c nd (some n))
+      if n.name = nd.name then .ok (finishNode c nd (some n))
       else if nameClash c nd false then .error .nodeReserved
       else .ok (finishNode (delNode c n.peer n.name) nd (some n))     -- rename: the old node goes, with all it carries
     | none =>
@@ -163,7 +163,7 @@ def ensureNode (c : Cat) (nd : Node) : Except Err Cat :=
       else .ok (finishNode c nd (c.nodes.find? (nodeAt nd.peer nd.name)))
 
 /-- `RegisterRequest.ChangesNode` -/
-def changesNode (nd e : Node) : Bool := decide (nd.id ≠ e.id ∨ lc nd.name ≠ lc e.name ∨ nd.addr ≠ e.addr)
+def changesNode (nd e : Node) : Bool := decide (nd.id ≠ e.id ∨ nd.name ≠ e.name ∨ nd.addr ≠ e.addr)
 
 def regNode (c : Cat) (nd : Node) : Except Err Cat :=
   match c.nodes.find? (nodeAt nd.peer nd.name) with
@@ -191,11 +191,11 @@ def putChk (c : Cat) (k : Chk) : Cat :=
 
 /-- `HealthCheck.IsSame` -/
 def sameChk (a b : Chk) : Bool :=
-  decide (lc a.node = lc b.node ∧ a.cid = b.cid ∧ a.status = b.status ∧ a.sid = b.sid ∧ a.sname = b.sname)
+  decide (a.node = b.node ∧ a.cid = b.cid ∧ a.status = b.status ∧ a.sid = b.sid ∧ a.sname = b.sname)
 
 /-- `ensureCheckIfNodeMatches` + `ensureCheckTxn` -/
 def regChk (c : Cat) (p reqNode : String) (k : ChkDef) : Except Err Cat :=
-  if lc k.node ≠ lc reqNode then .error .checkNodeMismatch
+  if k.node ≠ reqNode then .error .checkNodeMismatch
   else if !(c.nodes.any (nodeAt p k.node)) then .error .missingNode
   else
     let status := if k.status = "" then "critical" else k.status
@@ -278,7 +278,7 @@ def csnAll (c : Cat) (p : String) : List Svc → Except Err (List CSN)
 
 /-- `Store.CheckServiceNodes(name, peer)` -/
 def csn (c : Cat) (p sn : String) : Except Err (List CSN) :=
-  csnAll c p (c.svcs.filter fun s => decide (s.peer = p ∧ lc s.name = lc sn))
+  csnAll c p (c.svcs.filter fun s => decide (s.peer = p ∧ s.name = sn))
 
 /-- `Store.ServiceList(peer)`: distinct (exact) service names -/
 def serviceList (c : Cat) (p : String) : List String :=
@@ -338,11 +338,11 @@ def storedInst (st : List CSN) (n i : String) : Option CSN :=
   st.find? fun x => decide (x.node.name = n ∧ x.svc.sid = i)
 
 /-- `Node.IsSame(stored, received)` -/
-def sameNodeDef (e : Node) (d : NodeDef) : Bool := decide (e.id = d.id ∧ lc e.name = lc d.name ∧ e.addr = d.addr)
+def sameNodeDef (e : Node) (d : NodeDef) : Bool := decide (e.id = d.id ∧ e.name = d.name ∧ e.addr = d.addr)
 
 /-- `HealthCheck.IsSame(stored, received)`; an empty received status never equals the stored one -/
 def sameChkDef (e : Chk) (k : ChkDef) : Bool :=
-  decide (lc e.node = lc k.node ∧ e.cid = k.cid ∧ e.status = k.status ∧ e.sid = k.sid ∧ e.sname = k.sname)
+  decide (e.node = k.node ∧ e.cid = k.cid ∧ e.status = k.status ∧ e.sid = k.sid ∧ e.sname = k.sname)
 
 def nodeUnchanged (st : List CSN) (d : NodeDef) : Bool :=
   match storedNode st d.name with
